@@ -116,6 +116,9 @@ def check(ctx):
     ctx.ob("R08.2", q + ":outer-product", okp, found=ast.unparse(src_arr), required="tensordot(self.array, other.array, 0): layout [d1 c1 d2 c2]", mod=TEN, node=r, sig="outer-product")
     comp = shape.inline(mv.args[2], fn.body, keep=(oth, 'source', 'dom', 'cod'))
     srcrange = shape.inline(mv.args[1], fn.body, keep=(oth, 'dom', 'cod'))
+    inverted = False
+    if not isinstance(comp, ast.ListComp) and isinstance(srcrange, ast.ListComp):
+        comp, srcrange, inverted = srcrange, comp, True       # moveaxis(a, <piecewise list>, range): the inverse permutation
     ev = Evaluator(Facts(), q)
     env = {self_: me, oth: other}
     probs = []
@@ -133,8 +136,23 @@ def check(ctx):
         seg = rng.parts[0] if isinstance(rng, Seq) and rng.parts else None
         if seg is None or not (ev.facts.eq(seg.atom.elem(Lin.of(0)), 0) and ev.facts.eq(seg.atom.length, a + b + c + d)):
             probs.append(("source", rng, "all axes range(|d1|+|c1|+|d2|+|c2|)"))
-        moved = block_map(ev, comp, env, [("d1", Lin.of(0), a), ("c1", a, b), ("d2", a + b, c), ("c2", a + b + c, d)])
-        order = layout_after(moved, ev.facts)
+        old_blocks = [("d1", Lin.of(0), a), ("c1", a, b), ("d2", a + b, c), ("c2", a + b + c, d)]
+        if not inverted:
+            moved = block_map(ev, comp, env, old_blocks)
+            order = layout_after(moved, ev.facts)
+        else:
+            # the list gives, for each NEW position, the OLD axis placed there: evaluate it on the blocks of the required layout
+            new_blocks = [("d1", Lin.of(0), a), ("d2", a, c), ("c1", a + c, b), ("c2", a + c + b, d)]
+            img = block_map(ev, comp, env, new_blocks)
+            order = []
+            for (lab, st, w) in img:
+                hit = [ol for (ol, os_, ow) in old_blocks if ev.facts.eq(os_, st) and ev.facts.eq(ow, w)]
+                if ev.facts.zero(w):
+                    order.append(lab)
+                    continue
+                if not hit:
+                    raise Unlocatable("new block %s is filled from old axes starting at %r, which is not the start of a block of that width" % (lab, st))
+                order.append(hit[0] if hit[0] == lab else "%s<-%s" % (lab, hit[0]))
         if order != ["d1", "d2", "c1", "c2"]:
             probs.append(("order", order, ["d1", "d2", "c1", "c2"]))
     except Unlocatable as e:
@@ -152,6 +170,13 @@ def check(ctx):
     fn = m.func(q)
     ctx.analysed(q)
     self_ = fn.args.args[0].arg
+    for extra in [x for x in ast.walk(fn) if isinstance(x, ast.Return) and x is not fn.body[-1]]:
+        ea = tensor_ctor_args(extra.value)
+        ctx.need(ea is not None, "Tensor.dagger has an early return that does not construct a Tensor: %s" % ast.unparse(extra)[:60])
+        earr = shape.inline(ea[2], fn.body)
+        econj = isinstance(earr, ast.Call) and ast.unparse(earr.func).endswith("conjugate")
+        ctx.ob("R08.3", q + ":early-return", econj and [ast.unparse(x) for x in ea[:2]] == [self_ + ".cod", self_ + ".dom"], found=ast.unparse(extra.value)[:100],
+               required="every path of dagger swaps the types and conjugates the array", mod=TEN, node=extra, sig="dagger-early-return")
     r = ret_expr(fn.body[-1:])
     args = tensor_ctor_args(r)
     ctx.need(args is not None, "Tensor.dagger does not end with Tensor(dom, cod, array)")
